@@ -1,6 +1,7 @@
 package sim
 
 import (
+	"encoding/json"
 	"fmt"
 	"strings"
 	"time"
@@ -266,6 +267,188 @@ func (c *Client) provisionalRID(rid string, except *CReq) bool {
 		}
 	}
 	return false
+}
+
+// provisionalAt: a request of this client that takes a direct count when it
+// is issued (subscribe, get, call, auth, new: on its own resource, and on the
+// resource a call or new is answered with) was in flight when the event
+// sequence number stood at `at` (0: is in flight now), and rid is that
+// resource, or can be reached through references from it while the client had
+// been sent that resource before (the collector does not look below a resource
+// with a direct count: what it refers to stays marked as sent with it).
+func (c *Client) provisionalAt(rid string, at uint64) bool {
+	rid = c.expandCID(rid)
+	for _, o := range c.ReqL {
+		if o.Action == "unsubscribe" || o.Action == "version" {
+			continue
+		}
+		if at == 0 {
+			if o.Resp != nil {
+				continue
+			}
+		} else if o.Seq > at || (o.Resp != nil && o.Resp.Seq < at) {
+			continue
+		}
+		if o.RID != "" && (c.expandCID(o.RID) == rid || (c.heldBefore(o.RID, at) && c.s.W.everReachable([]string{c.expandCID(o.RID)}, rid))) {
+			return true
+		}
+		if o.Action == "call" || o.Action == "auth" || o.Action == "new" {
+			c.s.mu.Lock()
+			var targets []string
+			open := false
+			for _, q := range c.s.tr.reqs {
+				if q.CIdx == c.CIdx && (q.Type == "call" || q.Type == "auth") && q.Seq > o.Seq {
+					if !q.Answered {
+						open = true
+					} else if strings.HasPrefix(q.Outcome, "rid:") {
+						targets = append(targets, q.Outcome[4:])
+					}
+				}
+			}
+			c.s.mu.Unlock()
+			if open {
+				return true
+			}
+			for _, t := range targets {
+				if (c.expandCID(t) == rid || (c.heldBefore(t, at) && c.s.W.everReachable([]string{c.expandCID(t)}, rid))) {
+					return true
+				}
+			}
+		}
+	}
+	return false
+}
+
+// referencesReceivedBefore counts the event frames received before `at` that
+// add a (non-soft) reference to rid.
+func (c *Client) referencesReceivedBefore(rid string, at uint64) int {
+	return c.referencesReceivedOn("", rid, at)
+}
+
+// referencesReceivedOn: the same, for events of resource `on` only ("" = any).
+func (c *Client) referencesReceivedOn(on, rid string, at uint64) int {
+	n := 0
+	for _, f := range c.Frames {
+		if f.Event == "" || f.Seq >= at || !strings.Contains(f.Raw, rid) {
+			continue
+		}
+		if on != "" && !strings.HasPrefix(f.Event, on+".") {
+			continue
+		}
+		var m struct {
+			Data struct {
+				Values map[string]json.RawMessage `json:"values"`
+				Value  json.RawMessage            `json:"value"`
+			} `json:"data"`
+		}
+		if json.Unmarshal([]byte(f.Raw), &m) != nil {
+			continue
+		}
+		isRef := func(b json.RawMessage) bool {
+			var r struct {
+				RID  string `json:"rid"`
+				Soft bool   `json:"soft"`
+			}
+			return len(b) > 0 && b[0] == '{' && json.Unmarshal(b, &r) == nil && r.RID == rid && !r.Soft
+		}
+		if isRef(m.Data.Value) {
+			n++
+		}
+		for _, v := range m.Data.Values {
+			if isRef(v) {
+				n++
+			}
+		}
+	}
+	return n
+}
+
+// referenceEventWaitingAt: for some resource the client held at `at`, more
+// events adding a reference (to whatever resource) had reached the gateway
+// than the client had been sent: such an event may have been waiting for its
+// resource to load, with the reference already in place but not sent.
+func (c *Client) referenceEventWaitingAt(at uint64) bool {
+	for _, iv := range c.Ivs {
+		if iv.StartSeq >= at || (iv.Closed && iv.EndSeq < at) {
+			continue
+		}
+		_, v := c.s.W.lookup(c.expandCID(iv.RID))
+		if v == nil {
+			continue
+		}
+		added := map[string]int{}
+		for _, e := range v.Stream {
+			if e.Kind == "snap" {
+				continue
+			}
+			switch {
+			case e.DlvCut >= 0 && e.DlvSeq < at:
+			case e.Derived && e.Via != nil && e.Via.Delivered && e.Via.DlvSeq < at:
+			default:
+				continue
+			}
+			if e.Kind == "add" && e.Val.isRef() {
+				added[e.Val.RID]++
+			}
+			for _, x := range e.Changed {
+				if x != nil && x.isRef() {
+					added[x.RID]++
+				}
+			}
+		}
+		for _, y := range sortedKeys(added) {
+			if added[y] > c.referencesReceivedOn(iv.RID, y, at) {
+				return true
+			}
+		}
+	}
+	return false
+}
+
+// heldBefore: the client was handed rid before `at` (0: at any time).
+func (c *Client) heldBefore(rid string, at uint64) bool {
+	for _, iv := range c.Ivs {
+		if (iv.RID == rid || c.expandCID(iv.RID) == rid) && (at == 0 || iv.StartSeq < at) {
+			return true
+		}
+	}
+	return false
+}
+
+// droppedAt: when the client let go of rid the last time.
+func (c *Client) droppedAt(rid string) uint64 {
+	var at uint64
+	for _, iv := range c.Ivs {
+		if iv.RID == rid && iv.Closed && iv.EndSeq > at {
+			at = iv.EndSeq
+		}
+	}
+	return at
+}
+
+// staleSentExplained: the recorded defects through which the gateway keeps
+// treating rid as sent after the client has released it. F-12: a request in
+// flight held a direct count on it (or on something it can be reached from) at
+// that moment. F-18: while the client held it, it lost one of several holders
+// (the count of sent references is not released when a holder is disposed); or
+// an event that adds a reference to it reached the gateway (while such an
+// event waits for the resource to load, its reference is counted as sent by
+// the collector although it is not).
+func (c *Client) staleSentExplained(rid string) bool {
+	if c.lostHolder[rid] {
+		return true
+	}
+	// more events adding a reference to rid had reached the gateway than this
+	// client had been sent when it let go of rid: one of them may have been
+	// waiting
+	at := c.droppedAt(rid)
+	if c.s.W.referencesAddedBefore(c.expandCID(rid), at) > c.referencesReceivedBefore(rid, at) {
+		return true
+	}
+	if c.referenceEventWaitingAt(at) {
+		return true
+	}
+	return c.provisionalAt(rid, c.droppedAt(rid)) || c.provisionalAt(rid, 0)
 }
 
 func (s *Sim) oracleUnsubEvent(c *Client, rid string, f *Frame) {
@@ -1074,8 +1257,18 @@ func (s *Sim) loadDeferredByQueryEvent(v *Variant) bool {
 		return false
 	}
 	for _, qq := range s.tr.reqs {
-		if qq.Type == "query" && qq.Name == v.Name && qq.Seq < last.DlvSeq && (!qq.Delivered || qq.DlvSeq > last.DlvSeq) {
+		if qq.Type != "query" || qq.Name != v.Name || (qq.Delivered && qq.DlvSeq < last.DlvSeq) {
+			continue
+		}
+		if qq.Seq < last.DlvSeq {
 			return true
+		}
+		// the query event was queued for the resource ahead of the get answer:
+		// its requests go out first, though later than the answer was delivered
+		for _, qe := range s.QEvents {
+			if qe.Subj == qq.Subj && qe.Dlv && qe.DlvSeq < last.DlvSeq {
+				return true
+			}
 		}
 	}
 	return false
